@@ -176,60 +176,75 @@ def run(check):
   else:
     check.analysed(mi)
     g = cx.cfg(mi)
-    ins = nodes_calling(g, lambda c: isinstance(c.func, ast.Attribute) and c.func.attr == 'input' and isinstance(c.func.value, ast.Name))
+    from ..paths import PathExec
+    from ..symeval import show, canon
+    ins = nodes_calling(g, lambda c: isinstance(c.func, ast.Attribute) and c.func.attr == 'input' and dotted(c.func.value) != mi.params[0])
     if not ins:
       r_l.violate('datapoint not buffered', mi, None, 'MetricBuffer.input does not pass the datapoint to an IntervalBuffer',
                   construct='buffer.input(datapoint)')
-    for n in ins:
-      call = [c for c in g.calls(n) if isinstance(c.func, ast.Attribute) and c.func.attr == 'input'][0]
-      bv = call.func.value.id
-      rds = reaching_defs(g, bv, n)
-      bad = []
-      for d in rds:
-        if d is g.entry:
-          bad.append((d, 'undefined'))
-          continue
-        a = d.ast
-        srcs = []
-        if isinstance(a, ast.Assign):
-          srcs = [unparse(a.value).replace(' ', '')]
-          chained = [unparse(t).replace(' ', '') for t in a.targets]
-        else:
-          chained = []
-        v = srcs[0] if srcs else '?'
-        if v.startswith('self.interval_buffers['):
-          continue
-        if v.startswith('IntervalBuffer(') and any(t.startswith('self.interval_buffers[') for t in chained):
-          continue
-        if v.startswith('self.interval_buffers.setdefault(') or v.startswith('self.interval_buffers.get('):
-          continue
-        bad.append((d, v))
+    S_ = ('param', mi.params[0])
+    DP = ('param', mi.params[1])
+    TABLE = ('attr', S_, 'interval_buffers')
+    FREQ = ('attr', S_, 'aggregation_frequency')
+    TS = ('field', DP, 0)
+
+    def key_of(t):
+      """K when t is self.interval_buffers[K] (or .setdefault(K, ...) / .get(K ...)), else None"""
+      t = canon(t)
+      if isinstance(t, tuple) and t[0] in ('sub', 'field') and len(t) == 3 and canon(t[1]) == TABLE:
+        return t[2]
+      if isinstance(t, tuple) and t[0] == 'meth' and t[1] in ('setdefault', 'get') and len(t) >= 4 and canon(t[2]) == TABLE:
+        return t[3]
+      return None
+
+    def aligned(k):
+      k = canon(k)
+      if isinstance(k, tuple) and k[0] == 'binop' and k[1] == 'Sub' and canon(k[2]) == TS:
+        m_ = canon(k[3])
+        return isinstance(m_, tuple) and m_[0] == 'binop' and m_[1] == 'Mod' and canon(m_[2]) == TS and canon(m_[3]) == FREQ
+      if isinstance(k, tuple) and k[0] == 'binop' and k[1] == 'Mult':
+        for x, y in ((k[2], k[3]), (k[3], k[2])):
+          x, y = canon(x), canon(y)
+          if y == FREQ and isinstance(x, tuple) and x[0] == 'binop' and x[1] == 'FloorDiv' and canon(x[2]) == TS and canon(x[3]) == FREQ:
+            return True
+      return False
+    px = PathExec(cx, mi, unroll=0, follow_exceptions=False)
+    verdicts = {}
+    for hit in px.run(set(ins)):
+      call = [c for c in g.calls(hit.node) if isinstance(c.func, ast.Attribute) and c.func.attr == 'input' and
+              dotted(c.func.value) != mi.params[0]][0]
+      recv = hit.term(call.func.value, px)
+      k = key_of(recv)
+      why = None
+      if k is None:
+        # a buffer created on this path and registered in the live table under its key before it is used
+        for n in hit.trail:
+          if n.kind == 'stmt' and isinstance(n.ast, ast.Assign):
+            for tg in n.ast.targets:
+              if isinstance(tg, ast.Subscript) and canon(px.ev(tg.value, hit.env)) == TABLE:
+                stored = px.ev(n.ast.value, hit.env)
+                if canon(stored) == canon(recv):
+                  k = px.ev(tg.slice, hit.env)
+        if k is None:
+          why = ('the buffer that receives the datapoint can come from `%s` instead of the live table self.interval_buffers[interval]: '
+                 'a buffer that a flush already dropped (age or size pruning) keeps receiving values that are then never aggregated'
+                 % show(recv)[:120])
+      if why is None and not aligned(k):
+        why = ('the interval key `%s` is not the datapoint\'s timestamp rounded down to a multiple of self.aggregation_frequency'
+               % show(k)[:120])
+      arg = hit.term(call.args[0], px) if len(call.args) == 1 and not call.keywords else None
+      if why is None and canon(arg) != DP:
+        why = 'the datapoint passed to the interval buffer is `%s`, not the one received' % (show(arg)[:80] if arg else unparse(call))
+      verdicts.setdefault(id(call), (call, []))[1].append(why)
+    for call, whys in verdicts.values():
+      bad = [w for w in whys if w]
       if bad:
-        d, v = bad[0]
-        r_l.violate('stale interval buffer', mi, d.ast if d is not g.entry else call, 'the buffer that receives the datapoint can come '
-                    'from `%s` instead of the live table self.interval_buffers[interval]: a buffer that a flush already dropped (age or '
-                    'size pruning) keeps receiving values that are then never aggregated' % v)
+        r_l.violate('stale interval buffer' if 'live table' in bad[0] else 'datapoint misrouted', mi, call, bad[0])
       else:
-        r_l.ok('buffer taken from / registered in self.interval_buffers[interval]', mi.loc(call))
-      if len(call.args) == 1 and isinstance(call.args[0], ast.Name) and call.args[0].id == mi.params[1]:
-        pass
-      else:
-        r_l.violate('datapoint altered before buffering', mi, call, 'the datapoint passed to the interval buffer is `%s`'
-                    % unparse(call.args[0] if call.args else call))
-    # alignment of the interval key
-    keynames = {x.slice.id for x in ast.walk(mi.node) if isinstance(x, ast.Subscript) and isinstance(x.slice, ast.Name) and
-                dotted(x.value) == 'self.interval_buffers'}
-    ivs = [n for n in g.nodes if n.kind == 'stmt' and isinstance(n.ast, ast.Assign) and any(
-      isinstance(t, ast.Name) and t.id in keynames for t in n.ast.targets)]
-    al_ok = False
-    for n in ivs:
-      t = unparse(n.ast.value).replace(' ', '')
-      if re.fullmatch(r'(\w+)-\(?\1%self\.aggregation_frequency\)?', t) or re.fullmatch(r'\(?(\w+)//self\.aggregation_frequency\)?\*self\.aggregation_frequency', t):
-        al_ok = True
-        r_l.ok('interval start = timestamp - timestamp % frequency', mi.loc(n.ast))
-    if not al_ok:
-      r_l.violate('interval not aligned to the rule frequency', mi, ivs[0].ast if ivs else None, 'the interval key is not the timestamp '
-                  'rounded down to a multiple of self.aggregation_frequency', construct='interval = timestamp - timestamp % frequency')
+        r_l.ok('buffer taken from / registered in self.interval_buffers[<aligned interval>]; datapoint passed on unchanged', mi.loc(call))
+        r_l.ok('interval start = timestamp - timestamp % frequency', mi.loc(call))
+    if px.truncated:
+      r_l.cannot_decide('too many paths through MetricBuffer.input')
 
   # ------------------------------------------------------------------ re-emit only after new data
   r_r = check.rule('R-C08-reemit', 3, 'an interval is (re-)emitted only if data arrived since its last emission')
@@ -243,8 +258,38 @@ def run(check):
       t = lab[1]
       return unparse(t.left).endswith('.inactive_since') and isinstance(t.comparators[0], ast.Constant) and \
         t.comparators[0].value is None and ((isinstance(t.ops[0], ast.Is) and lab[0] == 'T') or (isinstance(t.ops[0], ast.IsNot) and lab[0] == 'F'))
+    def guarded_worklist(e):
+      """the emission runs in `for b in W:` over a local worklist W whose every element was appended under the
+      `inactive_since is None` test of that very element (and W is changed in no other way)"""
+      for lp in [n for n in g.nodes if n.kind == 'loop' and isinstance(n.owner, ast.For) and e in g.in_loop_nodes(n.owner)]:
+        it, tg = lp.owner.iter, lp.owner.target
+        if not (isinstance(it, ast.Name) and isinstance(tg, ast.Name)):
+          continue
+        W = it.id
+        uses = [c for c in walk_no_nested(cv.node, include_self=False) if isinstance(c, ast.Call) and isinstance(c.func, ast.Attribute) and
+                dotted(c.func.value) == W]
+        stores = [x for x in walk_no_nested(cv.node, include_self=False) if isinstance(x, ast.Name) and x.id == W and isinstance(x.ctx, ast.Store)]
+        if len(stores) != 1 or not uses or any(c.func.attr != 'append' or len(c.args) != 1 or not isinstance(c.args[0], ast.Name) for c in uses):
+          continue
+        ok_all = True
+        for c in uses:
+          v = c.args[0].id
+          nodes = g.node_containing(c)
+
+          def active_v(a, lab, b, v=v):
+            return active(a, lab, b) and unparse(lab[1].left).replace(' ', '') == '%s.inactive_since' % v
+          if not nodes or nodes[0] in g.reach([g.entry], removed_edge=active_v, normal_only=True):
+            ok_all = False
+        # the emission must be about the loop variable
+        if ok_all and any(isinstance(x, ast.Name) and x.id == tg.id for x in ast.walk(e.ast)) or ok_all and \
+           any(isinstance(x, ast.Name) and x.id == tg.id for d_ in g.nodes if d_ in g.in_loop_nodes(lp.owner) and d_.ast is not None
+               for x in ast.walk(d_.ast)):
+          return True
+      return False
     for e in emits:
-      if e in g.reach([g.entry], removed_edge=active, normal_only=True):
+      if e in g.reach([g.entry], removed_edge=active, normal_only=True) and guarded_worklist(e):
+        r_r.ok('emission for the buffers collected under `inactive_since is None`', cv.loc(e.ast))
+      elif e in g.reach([g.entry], removed_edge=active, normal_only=True):
         r_r.violate('unchanged interval re-emitted', cv, e.ast, 'an aggregate can be emitted for a buffer without `inactive_since is '
                     'None` (new data since the last emission) having been tested')
       else:
@@ -430,21 +475,48 @@ def run(check):
                     'feeds": a datapoint named like its own aggregate is forwarded next to the aggregate')
       elif found[0] == 'set':
         S = found[1]
-        adds = [x for x in g.nodes if x.kind == 'stmt' and any(isinstance(c.func, ast.Attribute) and c.func.attr == 'add' and
-                                                               dotted(c.func.value) == S for c in g.calls(x))]
         gam = nodes_calling(g, lambda c: isinstance(c.func, ast.Attribute) and c.func.attr == 'get_aggregate_metric')
-        okadd = False
-        if adds and gam and rule_loops:
-          lp = rule_loops[0]
-          # every non-None result is added before the next iteration
-          def is_none(a, lab, b):
-            if not (isinstance(lab, tuple) and isinstance(lab[1], ast.Compare) and len(lab[1].ops) == 1 and
-                    isinstance(lab[1].comparators[0], ast.Constant) and lab[1].comparators[0].value is None):
-              return False
-            op = lab[1].ops[0]
-            return (isinstance(op, (ast.Is, ast.Eq)) and lab[0] == 'T') or (isinstance(op, (ast.IsNot, ast.NotEq)) and lab[0] == 'F')
-          rr = g.reach(g.after(gam[0]), removed_nodes=set(adds), removed_edge=is_none, normal_only=True)
-          okadd = lp not in rr and g.exit not in rr
+        gvar = None
+        if gam and isinstance(gam[0].ast, ast.Assign) and len(gam[0].ast.targets) == 1 and isinstance(gam[0].ast.targets[0], ast.Name):
+          gvar = gam[0].ast.targets[0].id
+
+        def is_none(a, lab, b):
+          if not (isinstance(lab, tuple) and isinstance(lab[1], ast.Compare) and len(lab[1].ops) == 1 and
+                  isinstance(lab[1].comparators[0], ast.Constant) and lab[1].comparators[0].value is None):
+            return False
+          op = lab[1].ops[0]
+          return (isinstance(op, (ast.Is, ast.Eq)) and lab[0] == 'T') or (isinstance(op, (ast.IsNot, ast.NotEq)) and lab[0] == 'F')
+
+        def collects_all(name, depth=0):
+          """every non-None aggregate name of every rule ends up in the collection `name`"""
+          if depth > 3 or not (gam and rule_loops):
+            return False
+          def holds_result(e):
+            return (isinstance(e, ast.Name) and e.id == gvar) or (isinstance(e, ast.Tuple) and any(holds_result(x) for x in e.elts))
+          adds_ = [x for x in g.nodes if x.kind == 'stmt' and any(
+            isinstance(c.func, ast.Attribute) and c.func.attr in ('add', 'append') and dotted(c.func.value) == name and len(c.args) == 1 and
+            (gvar is None or holds_result(c.args[0])) for c in g.calls(x))]
+          if adds_:
+            # every non-None result is added before the next iteration
+            rr = g.reach(g.after(gam[0]), removed_nodes=set(adds_), removed_edge=is_none, normal_only=True)
+            return rule_loops[0] not in rr and g.exit not in rr
+          defs_ = [x for x in g.nodes if x.kind == 'stmt' and isinstance(x.ast, ast.Assign) and
+                   any(isinstance(t_, ast.Name) and t_.id == name for t_ in x.ast.targets)]
+          if len(defs_) != 1 or defs_[0] in g.in_loop_nodes(rule_loops[0].owner):
+            return False
+          v_ = defs_[0].ast.value
+          while isinstance(v_, ast.Call) and isinstance(v_.func, ast.Name) and v_.func.id in ('set', 'frozenset', 'list', 'tuple') and \
+              len(v_.args) == 1 and not v_.keywords:
+            v_ = v_.args[0]
+          if isinstance(v_, ast.Name):
+            return collects_all(v_.id, depth + 1)
+          if isinstance(v_, (ast.ListComp, ast.SetComp, ast.GeneratorExp)) and len(v_.generators) == 1 and not v_.generators[0].ifs and \
+             isinstance(v_.generators[0].iter, ast.Name):
+            tn = {x.id for x in ast.walk(v_.generators[0].target) if isinstance(x, ast.Name)}
+            en = {x.id for x in ast.walk(v_.elt) if isinstance(x, ast.Name)}
+            return bool(en) and en <= tn and isinstance(v_.elt, (ast.Name, ast.Subscript)) and collects_all(v_.generators[0].iter.id, depth + 1)
+          return False
+        okadd = collects_all(S)
         if okadd:
           r_f.ok('guard `%s not in %s`, every aggregate name of every matching rule is added to %s' % (mvar, S, S), ap.loc(found[2].ast))
         else:
